@@ -4,6 +4,7 @@ import json
 import sys
 
 import vsim_agent as A
+from filelock import Timeout
 from jade.jobs.results_aggregator import ResultsAggregator
 from jade.result import Result
 
@@ -16,12 +17,20 @@ if role == "writer":
         status = "finished" if (i + w) % 5 else "canceled"
         A.call_event("call", op="append", row=name)
         r = Result(name, rc if status == "finished" else 1, status, 1.5 + i + w / 10, completion_time=1000.0 + i, hpc_job_id=str(100 + b))
-        ResultsAggregator.append("out", r, batch_id=b)
+        try:
+            ResultsAggregator.append("out", r, batch_id=b)
+        except Timeout:  # loud failure: the lock could not be had within its timeout, nothing was appended
+            A.call_event("ret", op="append", row=name, outcome="timeout")
+            continue
         A.call_event("ret", op="append", row=name)
 else:
     c, rounds = int(sys.argv[2]), int(sys.argv[3])
     agg = ResultsAggregator.load("out")
     for r in range(rounds):
         A.call_event("call", op="collect", who=c, round=r)
-        res = agg.process_results()
+        try:
+            res = agg.process_results()
+        except Timeout:
+            A.call_event("ret", op="collect", who=c, round=r, outcome="timeout")
+            continue
         A.call_event("ret", op="collect", who=c, round=r, rows=[[x.name, x.return_code, x.status, x.exec_time_s, x.completion_time, x.hpc_job_id] for x in res])
